@@ -22,6 +22,7 @@ import IgrisModel.C09.Lemmas
 import IgrisModel.C09.More
 import IgrisModel.C09.Order
 import IgrisModel.C09.Bound
+import IgrisModel.C09.Bounded
 namespace Igris.C09
 open Igris.Proto
 
@@ -561,6 +562,130 @@ theorem roundtrip_S_witness (rest : List Byte) :
   rw [List.length_replicate] at this
   exact this
 
+/-! ## 13. extension 2: the bounded readers
+
+`decodeB` = the archive reader after `fix: binary_buffer_reader never reads beyond
+_end` (clamp + zero-fill like the storage reader; `decodeA` above is the reader as it
+was and serves as the STRICT reference reader: `none` = a byte outside the input is
+needed).  `decodeC` = the storage reader with its `size_t` cursor. -/
+
+/-- BOUNDED ARCHIVE READER: for every type of the universe (strings, buffers,
+pairs, tuples, maps included) and EVERY input the repaired `binary_buffer_reader`
+returns, having read no byte at an offset >= the supplied length -/
+theorem bounded_archive_reader_safe (ty : Ty) (input : List Byte) :
+    ∃ v cursor, cursor ≤ input.length ∧ decodeB ty input = some (v, input.drop cursor) :=
+  safe_decodeB ty input
+
+/-- the repair changes NOTHING where the old reader stayed inside its input -/
+theorem bounded_archive_reader_conservative (ty : Ty) (input : List Byte) (v : Val) (r : List Byte)
+    (h : decodeA ty input = some (v, r)) : decodeB ty input = some (v, r) :=
+  mono_decode ty input v r h
+
+/-- hence every round-trip statement holds for the code as it is now -/
+theorem roundtrip_prefix_B (ty : Ty) (v : Val) (rest : List Byte) (h : WF ty v) :
+    decodeB ty (encodeA ty v ++ rest) = some (v, rest) :=
+  mono_decode ty _ _ _ (rtA ty v rest h)
+
+theorem sequence_B (ts : List Ty) (vs : List Val) (rest : List Byte) (h : WFs ts vs) :
+    decodeFieldsB ts (encodeFieldsA ts vs ++ rest) = some (vs, rest) :=
+  mono_decodeFields ts _ _ _ (rtAs ts vs rest h)
+
+/-- the capped loads and the raw array over the repaired reader -/
+theorem capped_load_in_step_B (bs rest : List Byte) (cap : Nat) (h : bs.length ≤ 65535) :
+    loadWritableB (dumpBuffer bs ++ rest) cap = some (bs.take cap, rest) ∧
+    loadCharArrB (dumpCharArr bs ++ rest) cap = some (bs.take (cap % 65536), rest) :=
+  ⟨loadWritableB_of _ _ _ _ (loadWritable_dumpBuffer bs rest cap h),
+   loadCharArrB_of _ _ _ _ (loadCharArr_dumpCharArr bs rest cap h)⟩
+
+theorem data_array_roundtrip_B (k : Sc) (vs : List Val) (rest : List Byte)
+    (hfit : ∀ v ∈ vs, ∃ n, v = .sc n ∧ n < 2 ^ (8 * k.width)) (h : vs.length * k.width ≤ 65535) :
+    decodeDataB k vs.length (encodeData k vs ++ rest) = some (vs, rest) :=
+  decodeDataB_of _ _ _ _ _ (decodeData_encodeData k vs rest hfit h)
+
+/-- TRUNCATED DECODE = DECODE OF THE ZERO-EXTENDED INPUT, archive reader: whatever
+the bounded reader returns on ANY input (`v`, leaving `r`), the strict reader
+returns on that input followed by `pad` zero bytes — `pad` is 0 unless the input
+was used up (`r = []`) — and anything after that (`y`) is left untouched.  So the
+result is a function of the supplied bytes alone: the missing bytes read as zero.
+(Types containing `igris::buffer` excepted: a zero-copy view is cut, see below.) -/
+theorem truncated_decode_zero_extended_B (ty : Ty) (hnv : ty.noView = true) (input : List Byte) (v : Val)
+    (r : List Byte) (h : decodeB ty input = some (v, r)) :
+    ∃ pad, (pad = 0 ∨ r = []) ∧ ∀ y, decodeA ty (input ++ List.replicate pad 0#8 ++ y) = some (v, r ++ y) :=
+  (ze_decode ty hnv input v r h).2
+
+/-- the same for the storage reader of the serializer stack (the harness oracle
+"truncated decode == reference decoder with the missing bytes as zero") -/
+theorem truncated_decode_zero_extended_S (ty : Ty) (hs : ty.supportedS = true) (input : List Byte) (v : Val)
+    (r : List Byte) (h : decodeS ty input = some (v, r)) :
+    ∃ pad, (pad = 0 ∨ r = []) ∧ ∀ y, decodeA ty (input ++ List.replicate pad 0#8 ++ y) = some (v, r ++ y) := by
+  rw [decodeS_eq_decodeB ty hs] at h
+  exact (ze_decode ty (noView_of_supportedS ty hs) input v r h).2
+
+/-- in particular for every truncation point of an encoding: the value decoded
+from the first k bytes is the value of those bytes followed by zeros, and the
+cursor stays inside the k bytes -/
+theorem truncated_encoding_S (ty : Ty) (hs : ty.supportedS = true) (w : Val) (k : Nat) :
+    ∃ v cursor pad, cursor ≤ ((encodeS ty w).take k).length ∧
+      decodeS ty ((encodeS ty w).take k) = some (v, ((encodeS ty w).take k).drop cursor) ∧
+      ∀ y, decodeA ty ((encodeS ty w).take k ++ List.replicate pad 0#8 ++ y) =
+        some (v, ((encodeS ty w).take k).drop cursor ++ y) := by
+  obtain ⟨v, c, hc, e⟩ := safe_decodeS ty ((encodeS ty w).take k)
+  obtain ⟨pad, _, hz⟩ := truncated_decode_zero_extended_S ty hs _ v _ e
+  exact ⟨v, c, pad, hc, e, hz⟩
+
+/-- a truncated `std::string` is zero-filled to its announced length, a truncated
+`igris::buffer` VIEW is cut to the bytes that exist (it cannot be filled) -/
+theorem truncated_string_vs_view_witness :
+    decodeB .str [3, 0, 0x41] = some (.bytes [0x41, 0, 0], []) ∧
+    decodeB .buf [3, 0, 0x41] = some (.bytes [0x41], []) ∧
+    decodeB (.sc .u32) [1, 2] = some (.sc 0x0201, []) := ⟨rfl, rfl, rfl⟩
+
+/-- STORAGE READER WITH ITS CURSOR (`size_t cursor`, `len = MIN(size, size() - cursor)`
+in `size_t` arithmetic, `memcpy` of `[cursor, cursor+len)`): started at 0 on an
+input shorter than 2^64 it never faults, the cursor ends inside the input — the
+invariant `cursor <= size` keeps `size() - cursor` from wrapping — and value and
+position are those of the remaining-bytes model `decodeS` all other theorems use -/
+theorem storage_cursor_model (ty : Ty) (input : List Byte) (hsz : input.length < 2 ^ 64) :
+    ∃ v c, c ≤ input.length ∧ decodeC ty ⟨input, 0⟩ = some (v, ⟨input, c⟩) ∧
+      decodeS ty input = some (v, input.drop c) := by
+  obtain ⟨v, s', rem', e1, e2, hr, hd, _⟩ := sim_decodeC ty ⟨input, 0⟩ input ⟨Nat.zero_le _, hsz, rfl⟩
+  obtain ⟨hc, _, rfl⟩ := hr
+  cases s' with
+  | mk d c =>
+    simp only at hd hc e2
+    subst hd
+    exact ⟨v, c, hc, e1, e2⟩
+
+theorem storage_cursor_model_seq (ts : List Ty) (input : List Byte) (hsz : input.length < 2 ^ 64) :
+    ∃ vs c, c ≤ input.length ∧ decodeFieldsC ts ⟨input, 0⟩ = some (vs, ⟨input, c⟩) ∧
+      decodeFieldsS ts input = some (vs, input.drop c) := by
+  obtain ⟨v, s', rem', e1, e2, hr, hd, _⟩ := sim_decodeFieldsC ts ⟨input, 0⟩ input ⟨Nat.zero_le _, hsz, rfl⟩
+  obtain ⟨hc, _, rfl⟩ := hr
+  cases s' with
+  | mk d c =>
+    simp only at hd hc e2
+    subst hd
+    exact ⟨v, c, hc, e1, e2⟩
+
+/-- one `load` keeps the invariant and is the clamped load of the remaining bytes -/
+theorem storage_load_keeps_invariant (s : Store) (size : Nat) (hc : s.cursor ≤ s.data.length)
+    (hsz : s.data.length < 2 ^ 64) :
+    ∃ bs c, s.load size = some (bs, ⟨s.data, c⟩) ∧ s.cursor ≤ c ∧ c ≤ s.data.length ∧
+      loadS (s.data.drop s.cursor) size = some (bs, s.data.drop c) := by
+  obtain ⟨bs, s', rem', e1, e2, hr, hd, hmono⟩ := store_load_sim s _ size ⟨hc, hsz, rfl⟩
+  obtain ⟨hc', _, rfl⟩ := hr
+  cases s' with
+  | mk d c =>
+    simp only at hd hc' e2 hmono
+    subst hd
+    exact ⟨bs, c, e1, hmono, hc', e2⟩
+
+/-- `_witness` why the invariant matters: with the cursor beyond the size (what
+`cursor += size` instead of `cursor += len` produces) `size() - cursor` wraps to
+2^64-1, the clamp is void and the next `load` copies from outside the buffer -/
+theorem storage_cursor_wrap_witness :
+    Store.avail ⟨[], 1⟩ = 18446744073709551615 ∧ Store.load ⟨[0x55], 2⟩ 1 = none := by decide
+
 /-! ## non-vacuity: the hypotheses are satisfiable by non-trivial values -/
 
 -- a map<string, vector<pair<i8,u16>>> with two entries in key order
@@ -610,5 +735,11 @@ example : WF (.map (.sc .f32) (.sc .u8)) (.list [.list [.sc 0x7fc00000, .sc 1]])
 example : keyClean (.vec (.sc .f32)) (.list [.sc 0x3f800000, .sc 0x80000000]) = true := by decide
 example : Typed (.vec .str) (.list [.bytes [1, 2]]) ∧ Counts16 (.vec .str) (.list [.bytes [1, 2]]) :=
   typed_of_wf _ _ (wfb_sound _ _ (by decide))
+
+-- bounded readers
+example : Ty.noView (.map .str (.vec (.tuple [.sc .u8, .str]))) = true := by decide
+example : decodeB (.vec (.sc .u16)) [2, 0, 7] = some (.list [.sc 7, .sc 0], []) := rfl
+example : decodeA (.vec (.sc .u16)) ([2, 0, 7] ++ List.replicate 3 0#8 ++ [9]) = some (.list [.sc 7, .sc 0], [] ++ [9]) := rfl
+example : decodeC (.vec (.sc .u16)) ⟨[2, 0, 7], 0⟩ = some (.list [.sc 7, .sc 0], ⟨[2, 0, 7], 3⟩) := rfl
 
 end Igris.C09
